@@ -140,11 +140,13 @@ pub fn run(tier: Tier, seed: u64) -> i32 {
     let deadline = Deadline::new(tier.wall_cap());
     let mut cases = vec![];
     // (a) sequences of row shapes without device reads
-    let sigs_a = vec![Sig::inp("CLK", 1, 0), Sig::inp("A", 4, 3), Sig::out("Q", 4), Sig::inp("B", 1, 1)];
+    // B (not in the header) has a default that does not fit its width: defaults come from the signal
+    // list, not from the program, and are passed on as they are in the constructor call and in rows
+    let sigs_a = vec![Sig::inp("CLK", 1, 0), Sig::inp("A", 4, 3), Sig::out("Q", 4), Sig::inp("B", 2, 6)];
     let ans_a = vec![MenuItem::ans(vec![("Q".into(), V::Num(2))])];
     // configurations with a bidirectional signal: used as input and expected, only through
     // its _out column, and not mentioned at all
-    let sigs_bidir = vec![Sig::out("Q", 4), Sig::bidir("D", 4, V::Num(5)), Sig::inp("CLK", 1, 0), Sig::inp("A", 4, 3)];
+    let sigs_bidir = vec![Sig::out("Q", 4), Sig::bidir("D", 4, V::Num(21)), Sig::inp("CLK", 1, 0), Sig::inp("A", 4, -3)];
     let ans_bidir = vec![MenuItem::ans(vec![("Q".into(), V::Num(2)), ("D".into(), V::Num(1))])];
     let fault = MenuItem { step: crate::driver::Step::Fault(77), deviation: true, label: "fault".into() };
     let maxk = tier.pick(4, 5);
